@@ -461,6 +461,9 @@ def leaf():
         st.builds(lambda k, v: ["set", k, v], st.sampled_from(KEYS), consts),
         st.builds(lambda k, v: ["set", k, v], st.sampled_from(["a", "b", "a", "c.d"]), consts),
         st.builds(lambda k, t: ["setf", k, t], st.sampled_from(KEYS), templates),
+        # a dictionary as value: it is merged into what is there (like every update of the context)
+        st.builds(lambda kv: ["set", kv[0], kv[1]], st.sampled_from([["c", {"d": 5}], ["c", {"e": "z"}], ["c", {"f": {"g": 1}}],
+                                                                     ["output", {"dirname": "q"}], ["output", {"fileext": "e"}]])),
         st.just(["store"]), st.just(["store"]), st.just(["ucfs"]),
         st.builds(lambda t: ["mkfn", t], name_templates),
         st.builds(lambda t: ["write", t], name_templates),
